@@ -4,7 +4,7 @@ import itertools
 ID = "C30"
 HARNESS_PKG = "h_c30"
 COQ_IMPORTS = "From PV Require Import Model.Psi Oracle.C30."
-COQ_SHARD = 120
+COQ_SHARD = 70
 TECHNIQUE = ("Coq proof over a Gallina model of psi_hash.rs (alice/bob as stream-to-messages functions, salted hash as a section "
              "variable, gather_transport_infos over an address-book model) + differential correspondence with the real protocol "
              "(real BLAKE3, real SqliteStore address book), both as a two-party session and one real side against scripted peers")
@@ -29,9 +29,9 @@ ASSUMPTIONS = ["H_inj: for a fixed salt the salted BLAKE3 hash is injective in t
                "salt halves are fresh randomness independent of the topics (modelled as a separate type, not scanned for in the model; the harness scans whole serialised messages)"]
 TRUSTED = ["modelled not verified: BLAKE3; SQL of node_infos_by_topics/node_info/all_node_infos (documented meaning modelled, real SqliteStore driven by the harness); "
            "serde encodings; HashSet/BTreeMap as duplicate-free/sorted lists"]
-RULE = ("quick: exhaustive honest sessions over a 2-topic universe (all 16 topic-set pairs x 4 sharing configs x 3 address-book shapes) + 220 random honest "
+RULE = ("quick: exhaustive honest sessions over a 2-topic universe (all 16 topic-set pairs x 4 sharing configs x 3 address-book shapes) + 150 random honest "
         "sessions (universe <= 12 topics, overlap patterns empty/disjoint/equal/subset/superset/random, books <= 8 nodes with stale / no-transport / self / remote "
-        "entries) + 260 one-sided scripted-peer cases (valid scripts, single mutations, random item sequences incl. stream errors, wrong-direction hashes, raw and "
+        "entries) + all scripts of length <= 2 for each side + 180 random one-sided scripted-peer cases (valid scripts, single mutations, random item sequences incl. stream errors, wrong-direction hashes, raw and "
         "junk words); thorough: universe <= 40, books <= 20, 2500 + 2500 cases. non-trivial honest = non-empty intersection that differs from both sets; "
         "non-trivial script = real side read at least one item")
 
@@ -199,7 +199,7 @@ def gen(tier, rng):
     k = 0
     subsets = [[], [0], [1], [0, 1]]
     if tier == "quick":
-        nh, ns, umax, nmax = 220, 260, 12, 8
+        nh, ns, umax, nmax = 150, 180, 12, 8
     else:
         nh, ns, umax, nmax = 2500, 2500, 40, 20
     for ta in subsets:
